@@ -984,16 +984,22 @@ fn group_to_fields(
 ///
 /// See https://github.com/anweiss/cddl/issues/640
 fn deduplicate_field_names(fields: &mut [RustField]) {
-  let mut seen: std::collections::HashMap<String, usize> = std::collections::HashMap::new();
+  // per Rust name: how often it was seen, and whether its first holder is
+  // synthetic (no CDDL key of its own, so its wire name is its Rust name)
+  let mut seen: std::collections::HashMap<String, (usize, bool)> = std::collections::HashMap::new();
 
   for field in fields.iter_mut() {
     let base = field.name.clone();
-    let count = seen.entry(base.clone()).or_insert(0);
+    let (count, first_is_synthetic) = seen
+      .entry(base.clone())
+      .or_insert((0, field.original_name == base));
     *count += 1;
 
     if *count > 1 {
       let unique = format!("{}_{}", base, *count - 1);
-      if field.original_name == base {
+      // A real key that merely snake-cases to a taken name (`a-b` then `a_b`)
+      // keeps its wire name; only synthetic repeats are renamed on the wire
+      if field.original_name == base && *first_is_synthetic {
         field.original_name = unique.clone();
       }
       field.name = unique;
